@@ -162,6 +162,16 @@ def run_phase(case):
         raise Fail("variables_added", "%s introduced variables %r" % (name, sorted(set(snap["V"]) - set(spec["V"]))))
     if BC.snap_cfg(G) != before:
         raise Fail("mutates_argument", "%s changed its argument" % name)
+    # the result is the caller's object: the later phases are applied to it in place (as the library's own pipeline does with intermediate results);
+    # the original argument must stay untouched then as well
+    from gambatools import cfg_algorithms as CA
+    for later in (CA.cfg_make_rules_of_length_two_in_place, CA.cfg_eliminate_terminals_in_place):
+        try:
+            later(G2)
+        except Exception:
+            break
+    if BC.snap_cfg(G) != before:
+        raise Fail("argument_shares_parts_with_result", "%s: modifying the *result* in place (rules of length two, terminals) changed the argument: the result is not an independent grammar" % name)
     cls = classes(spec)
     relevant = {1: True, 2: "eps_rule" in cls, 3: "unit_rule" in cls, 4: "long_rule" in cls, 5: "terminal_in_long_rule" in cls}[k]
     cls.add("phase_%d" % k)
